@@ -25,6 +25,12 @@ import (
 // SuiteInputs are the expressions of the repository's own parser tests (valid
 // and invalid), used as one of the input sources.
 var SuiteInputs = []string{
+	// literals that are cheap to parse and expensive for whoever consumes them
+	// later (a pattern with counted repetition compiles to thousands of regexp
+	// instructions; a long number; a long selector): the budget is about the
+	// parser's steps, nothing else
+	"Name matches \"^(ab?){400}$\"", "x not matches `([a-z]{1,30}-){30}end`", "n == 123456789012345678901234567890123456789012345678901234567890",
+	"a.b.c.d.e.f.g.h.i.j.k.l.m.n.o.p.q.r.s.t.u.v.w.x.y.z == 1",
 	"foo == 3", `"/foo" == 3`, `"/hy-phen/under_score/pi|pe/do.t/ti~lde/co:lon" == 3`, `"/hy-phen/under_score/pi|pe/do.t/ti~lde/" == 3`,
 	"foo/bar == 3", "foo != xyz", "list is empty", "list is not empty", "foo in bar", "foo not in bar", "bar contains foo",
 	"bar not contains foo", "foo matches bar", "foo not matches bar", "not prod in tags", "port != 80 and port != 8080",
